@@ -2,6 +2,8 @@ import Tumfl.Theory.ResolveFaithfulFound
 import Tumfl.Theory.ResolveFaithfulExample
 import Tumfl.Theory.ResolveNothingLeft
 import Tumfl.Theory.ResolveDesignates
+import Tumfl.Theory.ResolveComplete
+import Tumfl.Theory.ResolveCompleteExamples
 /-!
 # C04, the clause "everything else in every file is unchanged" - refinement of the resolver model to a declarative specification
 
@@ -85,5 +87,32 @@ theorem C12_error_designates (fs : FS) (main : Path) (sp : List Path) (fuel : Na
 theorem C12_tree_is_files {fs : FS} {sp : List Path} {main : Path} {dir : Path} {b : Block} (h : InTree fs sp main dir b) :
     ∃ path text b0 hs, fs.read path = some text ∧ parseText text = .ok (b0, hs) ∧ dir = dirOf path ∧ (b = b0 ∨ b = asChunk b0) :=
   h.is_file
+
+/-- C12, the main clause (completeness): if resolution SUCCEEDS, no file of the dependency tree contains an uninlinable call of the bare name `require` - in whichever file and
+whichever syntactic position the walker reaches.  Deduplication, statement-level cycles and files reached only through expression-level requires are covered: every file enters the
+table before its chunk is walked, and at the end every file in the table is clean with all its requires in the table again (`resolve_closed_table`). -/
+theorem C12_complete {fs : FS} {main : Path} {sp : List Path} {fuel : Nat} {b' : Block} (h : resolveRecursive fs main sp fuel = .ok b') :
+    ∀ dir b m t, InTree fs sp main dir b → ¬ offendsBlock fs sp dir m t b :=
+  resolve_complete h
+
+/-- equivalently: one offending call anywhere in the tree and resolution ends in an error for EVERY fuel (a dependency error, a parse error of some file or - outside the
+quantifier - exhausted recursion: `C12_errors`) -/
+theorem C12_offending_never_ok {fs : FS} {main : Path} {sp : List Path} {dir : Path} {b : Block} {m : String} {t : Token}
+    (ht : InTree fs sp main dir b) (ho : offendsBlock fs sp dir m t b) (fuel : Nat) : ∃ e, resolveRecursive fs main sp fuel = .error e :=
+  resolve_fails_of_offending ht ho fuel
+
+/-- soundness + completeness: an InvalidDependencyError at one recursion budget means no budget succeeds -/
+theorem C12_dependency_error_stable {fs : FS} {main : Path} {sp : List Path} {fuel : Nat} {m : String} {t : Token}
+    (h : resolveRecursive fs main sp fuel = .error (.dependency m t)) (fuel' : Nat) : ∃ e, resolveRecursive fs main sp fuel' = .error e :=
+  resolve_dependency_error_never_ok h fuel'
+
+/-- on success every literal require of every tree file finds a file that parses (and is in the tree again) -/
+theorem C12_complete_parses {fs : FS} {main : Path} {sp : List Path} {fuel : Nat} {b' : Block} (h : resolveRecursive fs main sp fuel = .ok b')
+    {dir : Path} {b : Block} (ht : InTree fs sp main dir b) {path : Path} (hreq : requiresBlock fs sp dir path b) :
+    ∃ text b1 hs, fs.read path = some text ∧ parseText text = .ok (b1, hs) ∧ InTree fs sp main (dirOf path) (asChunk b1) :=
+  resolve_complete_parses h ht hreq
+
+/-- non-vacuity: a file system with an expression-level inlining, a deduplicated statement-level require and a require back to the main file, on which resolution succeeds -/
+theorem C12_complete_example : ∃ b', resolveRecursive exCleanFS ["p", "main.lua"] [] 20 = .ok b' := exCleanFS_ok
 
 end Tumfl.Props
